@@ -202,36 +202,49 @@ def run(ctx, rep):
                 return w
         return None
 
-    for nm in ("stop_bit_0", "stop_bit_1"):
-        ent = R[nm]
-        gk = ckey(oracle_cond(ent["guard"], root))
-        ck = ckey(oracle_cond(ent["cond"], root))
-        w = has_cond(ck, gk)
-        rep.check(w is not None, "R10.2", "R10.2|%s|compare" % nm, "under %s: error iff %s" % (gk, ck), w or RUN,
-                  "running check arm %s: comparison %s under guard %s not found" % (nm, ck, gk))
-        upd = tuple("sym(%s)" % x if x in ("EXPECT", "INCR") else x for x in ent["update"])
-        w = has_assign(upd, gk)
-        rep.check(w is not None, "R10.2", "R10.2|%s|update" % nm, "under %s: %s" % (gk, upd), w or RUN,
-                  "running check arm %s: state update %s under guard %s not found" % (nm, upd, gk))
-    # exactly two updates of EXPECT
-    nupd = [a for a, g, w in assigns if a[1] == "sym(EXPECT)"]
-    rep.check(len(nupd) == 2, "R10.2", "R10.2|expect|writers", "expected page counter written exactly at the two documented places (%d)" % len(nupd), RUN)
+    # stop-bit / page-counter step function, decided per concrete stop_bit value (all 256): the events of check() are
+    # collected under the assumption stop_bit == v, so the rule does not depend on how the match / ifs / helpers are written
+    sb_lo, sb_w = R["stop_bit_1"]["guard"]["bits"][1], R["stop_bit_1"]["guard"]["bits"][0] - R["stop_bit_1"]["guard"]["bits"][1] + 1
+    pg_ne = ckey(oracle_cond(R["stop_bit_0"]["cond"], root))
+    strip = lambda g: tuple(x for x in g if x not in ("true", "not false"))
+    live = lambda o: not any(x in ("false", "not true") for x in o["guard"])
+    others_ok, others_bad = 0, []
+    for v in range(1 << sb_w):
+        ev.assume = {}
+        ev.assume_bits(root, sb_lo, sb_w, v)
+        ev.watch = lambda c: c.endswith("::write_fmt") or c.endswith("::write_str") or c.endswith("String::push_str") or c.endswith("String::push")
+        try:
+            o_v = ev.collect_ifs(RUN + "check", [selfr, Obj(root, 0, RC)], follow=lambda c: c.startswith(RUN))
+        finally:
+            ev.assume = {}
+            ev.watch = None
+        o_v = [o for o in o_v if live(o)]
+        cmp_v = [(strip(o["guard"]), o["where"]) for o in o_v if "cond" in o and ckey(o["cond"]) == pg_ne]
+        upd_v = [(o["assign"][:3], strip(o["guard"]), o["where"]) for o in o_v if "assign" in o and o["assign"][1] == "sym(EXPECT)"]
+        txt_v = [(strip(o["guard"]), o["where"]) for o in o_v if "call" in o and "sym(var:" not in o["args"][1] and "LAST[" not in o["args"][1]]
+        if v in (0, 1):
+            nm = "stop_bit_%d" % v
+            ent = R[nm]
+            ok = len(cmp_v) == 1 and cmp_v[0][0] == () and [g for g, w in txt_v] == [(pg_ne,)]
+            rep.check(ok, "R10.2", "R10.2|%s|compare" % nm, "stop_bit == %d: error text written iff %s" % (v, pg_ne), cmp_v[0][1] if cmp_v else RUN,
+                      "running check with stop_bit == %d: expected exactly one unguarded test %s guarding the only error text; tests %s, error texts under %s" % (
+                          v, pg_ne, cmp_v, [g for g, w in txt_v]))
+            upd = tuple("sym(%s)" % x if x in ("EXPECT", "INCR") else x for x in ent["update"])
+            ok = len(upd_v) == 1 and upd_v[0][0] == upd and upd_v[0][1] == ()
+            rep.check(ok, "R10.2", "R10.2|%s|update" % nm, "stop_bit == %d: exactly one unconditional state update %s" % (v, upd), upd_v[0][2] if upd_v else RUN,
+                      "running check with stop_bit == %d: expected the single unconditional update %s, found %s" % (v, upd, [(a, g) for a, g, w in upd_v]))
+        else:
+            if any(g == () for g, w in txt_v) and not upd_v and not cmp_v:
+                others_ok += 1
+            else:
+                others_bad.append((v, [g for g, w in txt_v], [a for a, g, w in upd_v]))
+    rep.check(not others_bad and others_ok == (1 << sb_w) - 2, "R10.2", "R10.2|stop_bit|other",
+              "every other stop_bit value (%d values): error text written unconditionally, expected page counter untouched" % others_ok, RUN,
+              "stop_bit values that are neither 0 nor 1 are not reported unconditionally or touch the expected page counter: %s" % others_bad[:4])
     # increment learnt from the 2nd RDH
     inc = [(a, g) for a, g, w in assigns if a[1] == "sym(INCR)"]
     rep.check(len(inc) == 1 and "SECOND" in inc[0][0][2] and "pages_counter" in inc[0][0][2] and any("isSome(sym(SECOND))" in x for x in inc[0][1]),
               "R10.2", "R10.2|increment|learn", "page-counter increment learnt once from the 2nd RDH: %s" % (inc,), RUN)
-    # other stop_bit values are an error: wildcard arm writes the error string (third arm exists)
-    tb = ev.tb(RUN + "check_stop_bit_and_page_counter")
-    narms = 0
-    if tb:
-        for i, n in tb.walk():
-            if n["k"] == "Match":
-                pats = [tb.arms[a]["pat"] for a in n["arms"]]
-                ks = [(p["k"], p.get("int")) for p in pats]
-                narms = len(ks)
-                rep.check(ks == [("Const", 0), ("Const", 1), ("Wild", None)], "R10.2", "R10.2|stop_bit|arms",
-                          "stop-bit match arms are 0, 1, other: %s" % ks, where(n.get("sp")))
-    rep.check(narms == 3, "R10.2", "R10.2|stop_bit|match", "stop-bit match found", RUN)
     # orbit rule
     o_and = R["orbit_same_after_stop"]["and"]
     k_or = ckey(Evaluator(None).logic("and",
